@@ -113,6 +113,11 @@ meta_q = [
 
 INTERNAL_RULES = ['DocumentHashDoesNotExist', 'DocumentHashExistence', 'InputHashAlgorithmVerification', 'DocumentHashVerification', 'AggregationChainInputLevelVerification', 'AggregationChainInputHashAlgorithmVerification', 'Rfc3161DoesNotExist', 'Rfc3161Existence', 'Rfc3161RecordHashAlgorithmVerification', 'Rfc3161RecordOutputHashAlgorithmVerification', 'AggregationChainInputHashVerification', 'AggregationChainMetaDataVerification', 'AggregationChainHashAlgorithmVerification', 'AggregationHashChainIndexContinuation', 'AggregationHashChainTimeConsistency', 'AggregationHashChainConsistency', 'AggregationHashChainIndexConsistency', 'CalendarHashChainDoesNotExist', 'CalendarHashChainExistence', 'CalendarHashChainInputHashVerification', 'CalendarHashChainAggregationTime', 'CalendarHashChainRegistrationTime', 'CalendarChainHashAlgorithmObsoleteAtPubTime', 'SignatureDoesNotContainPublication', 'CalendarAuthenticationRecordDoesNotExist', 'CalendarAuthenticationRecordExistence', 'CalendarAuthenticationRecordAggregationHash', 'CalendarAuthenticationRecordAggregationTime', 'SignaturePublicationRecordExistence', 'SignaturePublicationRecordPublicationHash', 'SignaturePublicationRecordPublicationTime']
 
+# the 68 address-taken rule functions are type-compatible with the hasher callbacks: without these restrictions (each one a proof
+# obligation inserted by goto-instrument) CBMC treats every rule as a possible target of hsr->closeExisting(...)
+HASHER_FP = ["KSI_DataHasher_add.function_pointer_call.1/hm_add", "KSI_DataHasher_close.function_pointer_call.1/hm_closeExisting",
+             "KSI_DataHasher_reset.function_pointer_call.1/hm_reset", "KSI_DataHasher_free.function_pointer_call.1/hm_cleanup"]
+
 plan = {
  "property": "C01",
  "outside": "bytes -> typed signature (parsing, C10); more than 3 aggregation chains, 3 links per chain, 4 chain-index elements, 4 calendar links; "
@@ -133,7 +138,7 @@ plan = {
   {"name": "hc_e2e", "src": "hc_e2e.c", "env": ENV, "global_defines": ["HM_LOG_MAX=72", "HM_REC_MAX=4"], "tus": TUS + ["publicationsfile"], "unwind": 14, "unwindset": ["Rule_verify.0:14"], "timeout": 600, "object_bits": 12,
    "defines": ["SB_NCHAINS=1", "SB_NLINKS={1,1,1}", "SB_IDXLEN={1,1,1}", "SB_INALG={-20,-20,-20}", "SB_AGGRALG={0,0,0}", "SB_HAS_CAL=1", "SB_CAL_NLINKS=1", "SB_CAL_DIRS={0,-1,-1,-1}", "SB_CAL_INALG=0",
                "SB_CAL_SIBALG={-20,0,0,0}", "SB_HAS_PUB=1", "SB_PUBALG=-20", "SB_HAS_DOC=1", "SB_DOCALG=-20"],
-   "restrict_fp": ["Rule_verify.function_pointer_call.1/" + ",".join("KSI_VerificationRule_" + r for r in INTERNAL_RULES)],
+   "restrict_fp": ["Rule_verify.function_pointer_call.1/" + ",".join("KSI_VerificationRule_" + r for r in INTERNAL_RULES)] + HASHER_FP,
    "functions": ["Policy_verifySignature", "Rule_verify", "internalRules", "all 31 leaf rules of the internal policy (real)"],
    "bound": "one shape: 1 chain x 1 imprint link (SHA-1 chain), chain index of 1, calendar chain of one right link, publication record, document hash, no RFC3161 record; symbolic: all values, times below 2^63"},
   {"name": "hb_policy", "src": "hb_policy.c", "env": ["ctx", "list_wrap"], "tus": [], "unwind": 14, "unwindset": ["Rule_verify.0:14"], "timeout": 300, "object_bits": 12,
